@@ -319,6 +319,20 @@ fn run1<T: Flt>(src: &mut Src, obs: &mut Obs) -> Result<(), Fail> {
                         bshape[k] += 1;
                         bad = true;
                     }
+                    // the right number of rows spread wrongly over the trailing axes (transposed / regrouped)
+                    3 | 4 if trailing.len() >= 2 => {
+                        if src.bool() {
+                            bshape[1..].reverse();
+                        } else {
+                            let cnt: usize = trailing.iter().product();
+                            bshape = vec![1; 1 + trailing.len()];
+                            bshape[1] = cnt;
+                        }
+                        bad = bshape[1..] != trailing[..];
+                        if bad {
+                            obs.class("viol:bounds-shape/same-count");
+                        }
+                    }
                     2 if dynamic => {
                         if src.bool() {
                             bshape.push(1);
